@@ -37,7 +37,7 @@ ASSUMPTIONS = [
   'inexact arithmetic (Adam square roots, Welford moments, jit-vs-eager fusion) is compared with rtol=1e-5 (Welford 1e-4); everything else bytewise',
   'no exception faults are injected: the property says nothing about a failed update; these are deterministic folds and the simulator adds only the history dimension',
 ]
-PROBES = ['opt_nnx_optimizer', 'opt_nnx_trainstate', 'opt_linen_trainstate', 'step_jit', 'step_eager', 'jit_eager_alternation', 'non_wrt_edit', 'shared_param', 'multisteps', 'schedule', 'metric_average', 'metric_accuracy', 'metric_welford', 'metric_multi', 'metric_reset', 'metric_jit', 'metric_empty_nan', 'metric_repartition']
+PROBES = ['opt_nnx_optimizer', 'opt_nnx_trainstate', 'opt_linen_trainstate', 'step_jit', 'step_eager', 'jit_eager_alternation', 'non_wrt_edit', 'shared_param', 'multisteps', 'schedule', 'metric_average', 'metric_accuracy', 'metric_welford', 'metric_multi', 'metric_reset', 'metric_jit', 'metric_empty_nan', 'metric_repartition', 'metric_big_stream', 'mixed_precision_params']
 
 
 def setup_worker(w, tier):
@@ -64,12 +64,17 @@ def generate(rs, tier):
       ops.append(dict(op='edit', target=g.randrange(64), delta=g.randrange(1, 5)))
   return dict(
     engine='nnxworld',
-    knobs=dict(kind='optimizer', build=build, tx=g.choice(['sgd', 'momentum', 'adam', 'adamw', 'clip_sgd', 'schedule', 'multisteps']), wrapper=g.choice(['nnx.Optimizer', 'nnx.Optimizer', 'nnx.TrainState', 'linen.TrainState']), wrt=g.choice(['Param', 'Param', 'SubParam', 'ParamOrCustom'])),
+    knobs=dict(kind='optimizer', build=build, tx=g.choice(['sgd', 'momentum', 'adam', 'adamw', 'clip_sgd', 'schedule', 'multisteps']), wrapper=g.choice(['nnx.Optimizer', 'nnx.Optimizer', 'nnx.TrainState', 'linen.TrainState']), wrt=g.choice(['Param', 'Param', 'SubParam', 'ParamOrCustom']), pdtype=g.choice(['float32', 'float32', 'float32', 'bfloat16'])),
     ops=ops,
   )
 
 
 def gen_metric(g):
+  if g.random() < 0.06:
+    # long stream, few large batches: running-moment merges with large counts (count products beyond 2**31)
+    n = g.choice([60000, 100000, 140000])
+    return dict(engine='nnxworld', knobs=dict(kind='metric', metric=g.choice(['Welford', 'Average', 'Multi']), big=dict(n=n, seed=g.randrange(1000), lo=g.randrange(-3, 3)), vals=[], labels=[], jit=False),
+                ops=[dict(op='partition', cuts=sorted(set(g.randrange(1, n) for _ in range(g.randrange(1, 3)))), resets=[]), dict(op='partition', cuts=[g.randrange(1, n)], resets=[])])
   n = g.randrange(0, 25)
   vals = [g.randrange(-6, 12) for _ in range(n)]
   labels = [g.randrange(0, 3) for _ in range(n)]
@@ -114,11 +119,12 @@ def wrt_filters(name):
 
 def close(a, b, exact):
   a, b = np.asarray(a), np.asarray(b)
-  if a.shape != b.shape:
+  if a.shape != b.shape or a.dtype != b.dtype:
     return False
   if exact:
     return a.dtype == b.dtype and a.tobytes() == b.tobytes()
-  return bool(np.allclose(a.astype(np.float64), b.astype(np.float64), rtol=1e-5, atol=1e-6))
+  rtol = 1e-5 if a.dtype.itemsize >= 4 else 2e-2  # bfloat16 has 8 bits of mantissa
+  return bool(np.allclose(a.astype(np.float64), b.astype(np.float64), rtol=rtol, atol=1e-6))
 
 
 def tree_close(x, y, exact):
@@ -137,6 +143,16 @@ class OptWorld:
     for op in k['build']:
       W.apply_build_op(self.h, op, res)
     self.root = self.h.nodes[0]
+    if k.get('pdtype') == 'bfloat16':
+      # mixed precision: low-precision parameters, float32 gradients / updates
+      import ml_dtypes
+
+      res.probe('mixed_precision_params')
+      for i in self.h.vars:
+        mv = self.h.model[i]
+        if 'Param' in W.VT_MRO[mv.vtype] or mv.vtype == 'Custom':
+          mv.value = mv.value.astype(ml_dtypes.bfloat16)
+          self.h.real[i].value = jnp.asarray(mv.value)
     self.tx, self.exact_tx = make_tx(k['tx'])
     self.real_f, self.model_f = wrt_filters(k['wrt'])
     self.wrapper = k['wrapper']
@@ -266,6 +282,13 @@ def run_metric(plan, res, log):
   k = plan['knobs']
   kind = k['metric']
   vals, labels = k['vals'], k['labels']
+  if k.get('big'):
+    b = k['big']
+    r = np.random.RandomState(b['seed'])
+    # two regimes with different means so that batch means differ from the running mean
+    vals = np.concatenate([r.randint(b['lo'], b['lo'] + 4, b['n'] // 2), r.randint(b['lo'] + 3, b['lo'] + 9, b['n'] - b['n'] // 2)]).astype(np.float32)
+    labels = np.zeros(len(vals), np.int32)
+    res.probe('metric_big_stream')
   results = []
   for pi, part in enumerate(plan['ops']):
     if kind == 'Average':
@@ -314,7 +337,7 @@ def run_metric(plan, res, log):
         since = c
         res.probe('metric_reset')
     got = m.compute()
-    seen = vals[since:pos]
+    seen = list(vals[since:pos]) if not k.get('big') else vals[since:pos]
     where = f'partition {pi} (cuts {part["cuts"]}, resets {part["resets"]})'
     if kind == 'Multi':
       checks = [('Average', got['loss'], None), ('Welford', None, got['stats'])]
@@ -330,12 +353,13 @@ def run_metric(plan, res, log):
           res.probe('metric_empty_nan')
           if not np.isnan(a):
             raise Violation('metric-wrong', f'{where}: no values since the last reset but compute() = {a}')
-        elif not np.isclose(a, want['avg'], rtol=1e-5, atol=1e-6):
+        elif not np.isclose(a, want['avg'], rtol=1e-5 if not k.get('big') else 1e-3, atol=1e-6):
           raise Violation('metric-wrong', f'{where}: {ck}.compute() = {a}, statistic of all {len(seen)} values since the last reset is {want["avg"]}')
       else:
         if len(seen):
           for name, gotv, wantv in (('mean', st.mean, want['mean']), ('standard_deviation', st.standard_deviation, want['std']), ('standard_error_of_mean', st.standard_error_of_mean, want['sem'])):
-            if not np.isclose(float(gotv), wantv, rtol=1e-4, atol=1e-4):
+            tol = 1e-4 if not k.get('big') else 2e-3
+            if not np.isclose(float(gotv), wantv, rtol=tol, atol=tol):
               raise Violation('metric-wrong', f'{where}: Welford {name} = {float(gotv)}, statistic of all {len(seen)} values since the last reset is {wantv}')
     results.append((since, nb))
     log.add(pi, kind, nb, len(seen))
